@@ -7,6 +7,10 @@ HERE = os.path.dirname(os.path.dirname(os.path.abspath(__file__)))
 
 # (name, file, old, new)
 MUTANTS = [
+    # the reverse of fix 00d17e1: attribute services addressed to a non-existent object are carried out by the Message Router
+    ('C07-missing-object-answered-by-router', 'server/enip/device.py',
+     "                assert clid == self.class_id and inid == self.instance_id, \\\n                    \"Path %r processed by wrong Object %r\" % ( data.path['segment'], self )\n                data.status\t= 0x08",
+     "                data.status\t= 0x08"),
     ('C01-odd-symbolic-pad', 'server/enip/parser.py',
      "                    if seglen % 2:\n                        result += USINT.produce( 0 )\n                    break",
      "                    if seglen % 2 and seglen < 41:\n                        result += USINT.produce( 0 )\n                    break"),
